@@ -723,7 +723,8 @@ def gen_pins():
                 walk_solve(stn.body, conds)
 
     walk_solve(sv.body, [])
-    out["seed_induced"] = " ; ".join(starts)
+    # alias-insensitive normal form: `self.x` and a local `x` hoisted from it read the same
+    out["seed_induced"] = re.sub(r"\bself\.", "", " ; ".join(starts))
     lines = [HEADER.format(src="tdgl/solver/solver.py, tdgl/solver/runner.py (source pins)", sha=sha_of(solver) + "/" + sha_of(runner)), "namespace Tdgl.Gen\n"]
     for k, v in out.items():
         lines.append(f"def pin_{k} : String := {lean_str(v)}")
